@@ -111,7 +111,7 @@ func StorableReply(t *rapid.T, h *Hist, label string) (world.Reply, int64) {
 		rp.Header = append(rp.Header, H("Date", "$T+0"), H("Expires", DateOff(life)))
 	case 2:
 		rp.Status = Pick(t, label+"-hstatus", 200, 203, 301, 308, 404, 405, 410, 414, 501)
-		lmAge := Pick(t, label+"-lmage", int64(100), 600, 3600, 86400, 864000)
+		lmAge := Pick(t, label+"-lmage", int64(100), 600, 3600, 86400, 864000, 31536000, 946684800, 1262304000)
 		life = lmAge / 10
 		rp.Header = append(rp.Header, H("Date", "$T+0"), H("Last-Modified", DateOff(-lmAge)))
 		if rp.Status == 301 || rp.Status == 308 {
@@ -318,7 +318,17 @@ func c02like(t *rapid.T, prop string, forceOIC bool) *world.Scenario {
 		}
 		rq := &world.Req{Method: "GET", URL: u}
 		if v := requestDirectives(t, h, lbl+"-rq", forceOIC && i == n-1); v != "" {
-			rq.Header = append(rq.Header, H("Cache-Control", v))
+			switch Weighted(t, lbl+"-rqshape", 86, 7, 7) {
+			case 1:
+				// an empty field line in front (an empty list element, RFC 9110 §5.6.1)
+				rq.Header = append(rq.Header, H("Cache-Control", ""), H("Cache-Control", v))
+			case 2:
+				// the HTTP/1.0 twin of no-cache: without meaning when Cache-Control is present
+				// (RFC 9111 §5.4)
+				rq.Header = append(rq.Header, H("Pragma", "no-cache"), H("Cache-Control", ""), H("Cache-Control", v))
+			default:
+				rq.Header = append(rq.Header, H("Cache-Control", v))
+			}
 		}
 		switch Weighted(t, lbl+"-extra", 84, 8, 8) {
 		case 1:
@@ -351,6 +361,9 @@ func C02(t *rapid.T) *world.Scenario { return c02like(t, "C02", false) }
 // failing store.
 func C18(t *rapid.T) *world.Scenario {
 	sc := c02like(t, "C18", true)
+	if last := sc.Steps[len(sc.Steps)-1]; last.Op == "req" && Pct(t, "reqbody", 8) {
+		last.Req.BodyLen = Pick(t, "reqbodylen", 1, 5, 5000) // a GET may carry content; it is still a GET
+	}
 	switch Weighted(t, "state", 60, 12, 10, 10, 8) {
 	case 1: // other variant only
 		for _, st := range sc.Steps[:1] {
@@ -403,6 +416,11 @@ func C13(t *rapid.T) *world.Scenario {
 		Header: [][2]string{H("Date", "$T+0"), H("Cache-Control", JoinCC(cc)), H("Etag", `"v$S"`), H("X-Secret", "mark$S;")}}
 	if Pct(t, "lm", 30) {
 		first.Uncond.Header = append(first.Uncond.Header, H("Last-Modified", "$T-5000"))
+	}
+	if Pct(t, "nodate", 15) {
+		// an origin without a clock: the cache records the time of receipt (in GMT, whatever
+		// the local time zone of the process)
+		first.Uncond.Header = first.Uncond.Header[1:]
 	}
 	if Pct(t, "lat", 15) {
 		first.Uncond.LatencyNs = Pick(t, "latn", int64(1), 2, 10) * Sec
@@ -522,6 +540,10 @@ func C20(t *rapid.T) *world.Scenario {
 		sc.SWRSet, sc.SWRNs = true, 3600*Sec
 		T = 3600
 	}
+	if sc.SWRSet && Pct(t, "swrpre", 25) {
+		// an option list that sets the timeout more than once: the last setting decides
+		sc.SWRPre = []int64{Pick(t, "swrprev", 30*Sec, 3600*Sec, 1, 2*Sec)}
+	}
 	life := Pick(t, "life", int64(0), 1, 10, 60)
 	win := Pick(t, "win", int64(2), 10, 60, 3600, 100000)
 	first := &world.Req{Method: "GET", URL: u}
@@ -602,6 +624,12 @@ func C20(t *rapid.T) *world.Scenario {
 		rq.Uncond = world.Reply{Kind: "resp", Status: 200, Body: world.Body{Len: 30}, Header: [][2]string{H("Date", "$T+0"),
 			H("Cache-Control", "max-age="+itoa(life)+", stale-while-revalidate="+itoa(win)), H("Etag", `"v$S"`)}}
 		rq.Cond = Simple304()
+		if Pct(t, lbl+"-reuse", 25) {
+			// the caller reuses its request object for something else, at once or while the
+			// background request is in flight
+			rq.ReuseReq = true
+			rq.ReuseDelayNs = Pick(t, lbl+"-reused", int64(0), 0, Sec/2)
+		}
 		sc.Steps = append(sc.Steps, ReqStep(rq))
 	}
 	return sc
